@@ -31,6 +31,22 @@ CLAIMED = {
     text='Symbolic execution of the real retry loop with a solver-chosen fault at every objective call: all 4^k patterns of up to 5 calls of one design (including exactly four and exactly five consecutive failures, witnessed) and batches; replacement designs come from the real gen_vector/gen_number with random() symbolic. Failed-list contents, final costs/vector/state, exception propagation and the in-bounds clause are SMT obligations per path.',
     note='one design all patterns; batches of 2 (<=3 faults quick, all thorough); round() modelled as nearest integer (superset of half-even); failures in worker threads outside',
     ref='DESIGN.md section 5 C06'),
+ 'C14': dict(
+    text='Symbolic execution of the real WorstCaseEvaluator / GradientEvaluator through Algorithm.evaluate over several consecutive batches with an uninterpreted objective, symbolic design vectors and tolerances: neighbour construction, the extra objective, cost-vector lengths after every batch for every design seen so far, call counts per batch, forward-difference quotient and work-list reset are SMT obligations (all objective functions, all tolerances).',
+    note='dim<=2 quick / <=3 thorough, <=4 consecutive batches; reals for x+tol and the quotient; evaluate_scalar variants outside',
+    ref='DESIGN.md section 5 C14'),
+ 'C16': dict(
+    text='Symbolic execution of the real evaluate() of DTLZ1-4, ZDT1 and the bi-objective problem on an arbitrary point of the box with sin/cos/sqrt uninterpreted plus Pythagorean/range/quadrant lemmas; the defining identities (sum, norm, f2 formula, product) and non-negativity are polynomial obligations decided in NRA for every point of the box.',
+    note='m<=4 quick / m<=5 thorough, dimension m+9; identities over the reals; lemma instances are true facts about sin/cos/sqrt, z3 + nlsat tactic trusted',
+    ref='DESIGN.md section 5 C16'),
+ 'C17': dict(
+    text='Symbolic execution of the real Results queries and Problem population accessors on recorded individuals with solver-variable vectors/costs, every combination of generation tags and front numbers, and of epsilon_add on point sets of solver variables; pairing, ordering, optimum and max-min-max obligations hold for all values. The generational-distance clause is NOT decided (SciPy C kernel), only smoke-run.',
+    note='<=3 individuals quick / <=4 thorough; epsilon_add <=2x2 (3x3 in 1-D) points; gd outside (listed under undecided in the evidence)',
+    ref='DESIGN.md section 5 C17'),
+ 'C20': dict(
+    text='Symbolic execution of Individual.__eq__/__hash__ and of list membership, list.remove, list.index, Archive.remove and the duplicate test of generate over vectors of solver variables: equality iff all coordinates within 1e-10, symmetry, per-coordinate sensitivity, hash congruence, and exactness of membership/removal are SMT obligations for all vectors up to the length bound.',
+    note='n<=4 quick / n<=6 thorough, lists <=3/4; hash() of a tuple of proxies modelled as an uninterpreted function of its elements',
+    ref='DESIGN.md section 5 C20'),
 }
 
 NOT_APPLICABLE = {
